@@ -6,7 +6,7 @@ use crate::{
     Result,
 };
 
-use rustzx_z80::Z80Bus;
+use rustzx_z80::{Z80Bus, Z80};
 
 const SNA_HEADER_SIZE: usize = 27;
 const SNA_128K_SECONDARY_HEADER_SIZE: usize = 4;
@@ -45,6 +45,10 @@ where
 
     let mut header = [0u8; SNA_HEADER_SIZE];
     asset.read_exact(&mut header)?;
+
+    // Snapshot describes CPU at instruction boundary: drop HALT state, pending
+    // prefix and EI latch of the program which was running before
+    emulator.cpu = Z80::default();
 
     // i-reg
     emulator.cpu.regs.set_i(header[0]);
